@@ -20,7 +20,7 @@ from commonroad.scenario.lanelet import Lanelet, LaneletNetwork
 from commonroad.scenario.obstacle import (DynamicObstacle, EnvironmentObstacle, ObstacleType, PhantomObstacle,
                                           StaticObstacle)
 from commonroad.scenario.scenario import Scenario
-from commonroad.scenario.state import CustomState, InitialState, SignalState
+from commonroad.scenario.state import CustomState, SignalState
 from commonroad.scenario.traffic_light import (TrafficLight, TrafficLightCycle, TrafficLightCycleElement,
                                                TrafficLightDirection, TrafficLightState)
 from commonroad.scenario.traffic_sign import TrafficSign, TrafficSignElement
